@@ -1,7 +1,7 @@
 """Operations on symbolic values (truthiness, equality, arithmetic, containers)."""
 import z3
 
-from core import (SVal, TupleVal, LocalDict, KInt, KReal, KBool, KStr, KName, KRef, KEnum,
+from core import (KBits, KTotal, SVal, TupleVal, LocalDict, KInt, KReal, KBool, KStr, KName, KRef, KEnum,
                   KOpt, KExt, KExtReal, KTuple, KVec, KVec3, KList, KDict, KSet, KCounter,
                   CheckerError, fresh_val, fresh_name, Kind, FuncVal, ClassVal, ModuleVal, I, R, B, S)
 
@@ -80,6 +80,8 @@ def coerce_const(v, kind):
             return SI(zint(1 if v else 0))
         if isinstance(v, int):
             return SI(zint(v))
+    if kind == KBits and isinstance(v, int):
+        return SVal(KBits, [z3.BitVecVal(v, 64)])
     if kind == KReal:
         if isinstance(v, (int, float)) and not isinstance(v, bool):
             return SR(zreal(v))
@@ -129,6 +131,8 @@ def default_term(sort):
         return zbool(False)
     if sort == S:
         return z3.StringVal('')
+    if isinstance(sort, z3.BitVecSortRef):
+        return z3.BitVecVal(0, sort.size())
     if isinstance(sort, z3.ArraySortRef):
         return z3.K(sort.domain(), default_term(sort.range()))
     raise CheckerError('no default for sort %s' % sort)
@@ -240,6 +244,8 @@ def truthy(v):
         return v.z
     if k == KInt:
         return v.z != 0
+    if k == KBits:
+        return v.z != z3.BitVecVal(0, 64)
     if k == KReal:
         return v.z != 0
     if k == KStr:
@@ -383,6 +389,10 @@ def equal(a, b):
     if isinstance(ka, KExt) or isinstance(kb, KExt):
         a2, b2 = coerce(lift(a), KExtReal), coerce(lift(b), KExtReal)
         return zor(zand(a2.t[0], b2.t[0]), zand(znot(a2.t[0]), znot(b2.t[0]), a2.t[1] == b2.t[1]))
+    if ka == KBits or kb == KBits:
+        za = a.z if isinstance(a, SVal) else z3.BitVecVal(a, 64)
+        zb = b.z if isinstance(b, SVal) else z3.BitVecVal(b, 64)
+        return za == zb
     np_ = _num_pair(a, b)
     if np_ is not None:
         return np_[0] == np_[1]
@@ -495,6 +505,16 @@ def arith(op, a, b):
         ia = tuple_items(a) if isinstance(ka, (KVec,)) or isinstance(a, TupleVal) else [a] * 3
         ib = tuple_items(b) if isinstance(kb, (KVec,)) or isinstance(b, TupleVal) else [b] * 3
         return SVal(KVec3, [coerce(lift(arith(op, x, y)), KReal).z for x, y in zip(ia, ib)])
+    if ka == KBits or kb == KBits:
+        za = a.z if isinstance(a, SVal) else z3.BitVecVal(a, 64)
+        zb = b.z if isinstance(b, SVal) else z3.BitVecVal(b, 64)
+        if op == '|':
+            return SVal(KBits, [za | zb])
+        if op == '&':
+            return SVal(KBits, [za & zb])
+        if op == '^':
+            return SVal(KBits, [za ^ zb])
+        raise CheckerError('bits arith %s' % op)
     if ka == KStr and kb == KStr and op == '+':
         return SVal(KStr, [str_concat([lift(a).z, lift(b).z])])
     if isinstance(ka, KExt) or isinstance(kb, KExt):
@@ -619,7 +639,7 @@ def list_append(v, item):
 def empty_of(kind):
     if isinstance(kind, KList):
         return SVal(kind, [zint(0)] + [default_term(s) for s in kind.sorts()[1:]])
-    if isinstance(kind, (KDict, KSet, KCounter)):
+    if isinstance(kind, (KDict, KSet, KCounter, KTotal)):
         return SVal(kind, [default_term(s) for s in kind.sorts()])
     raise CheckerError('empty_of %r' % kind)
 
@@ -632,6 +652,8 @@ def key_term(k, kind):
         if isinstance(k.kind, KOpt) and k.kind.inner == kind:
             return k.t[1]
         return coerce(k, kind).z
+    if k is None and not (isinstance(kind, KRef) or kind == KName):
+        return default_term(kind.sorts()[0])     # total in specs (guarded by `is not None` there)
     return coerce_const(k, kind).z
 
 
